@@ -885,6 +885,36 @@ func runC11(r *core.Run) {
 			return core.Outcome{Class: fmt.Sprintf("accepted=%d errors=%d", pr.accepted, pr.errors), Nontrivial: true}
 		})
 
+	// Newick branch lengths as TEXT: what strconv.ParseFloat accepts is more than decimal numbers (Inf, NaN
+	// and infinity in any letter case and with signs, hexadecimal floats, underscores are rejected, values
+	// out of range are errors). Whatever the reader accepts, the writer must write back so that it reads
+	// the same (NaN equal to NaN).
+	type c11Dist struct {
+		Template string `json:"template"`
+		Text     string `json:"distance_text"`
+	}
+	distTexts := numberTexts()
+	distTemplates := []string{"a:%s;", "(a:%s,b:1)c;", "((a,b)x:%s,d)r;", "(a,b)r:%s;", "(a:%s,b:%s)c:%s;", "(:%s,:%s);", "('q q':%s)'r';(z:%s);"}
+	r.Bound("newick-distance-texts", fmt.Sprintf("%d texts in the place of a branch length (decimal, exponent, out of range, subnormal, Inf / NaN / infinity spellings in every case and sign, hexadecimal floats, malformed) x %d templates (leaf, inner node, root, all three at once, unnamed leaves, two trees)", len(distTexts), len(distTemplates)))
+	core.Clause(r, "newick-distance-texts", core.Opts{Rule: "branch lengths as text (what only a parser sees): no panic; every accepted tree is a fixed point of write->read with its distances compared as numbers (NaN equal to NaN), so a value the reader accepts must be written in a form that reads back as the same value; non-trivial = all"},
+		func(emit func(c11Dist) bool) {
+			for _, tp := range distTemplates {
+				for _, t := range distTexts {
+					if !emit(c11Dist{tp, t}) {
+						return
+					}
+				}
+			}
+		},
+		func(c c11Dist) core.Outcome {
+			text := strings.ReplaceAll(c.Template, "%s", c.Text)
+			pr := runNewick([]byte(text))
+			if pr.fail != "" {
+				return core.Failf("newick decoder on %q: %s", text, pr.fail)
+			}
+			return core.Outcome{Class: fmt.Sprintf("accepted=%d errors=%d", min(pr.accepted, 2), min(pr.errors, 2)), Nontrivial: true}
+		})
+
 	pool := samValidPool()
 	menu := corruptionMenu()
 	maxLines := core.Pick(r, 3, 4)
@@ -964,4 +994,11 @@ func runC11(r *core.Run) {
 			}
 			return core.Outcome{Class: strings.SplitN(c.Kind, "-", 2)[0], Nontrivial: true, Evals: 3}
 		})
+}
+
+// numberTexts: texts in the place of a number: decimal, exponent, out of range, subnormal, Inf / NaN /
+// infinity spellings in every case and sign, hexadecimal floats, malformed, non-ASCII digits.
+func numberTexts() []string {
+	return append([]string{"0", "-0", "1", ".5", "5.", "+5", "1E5", "1e-5", "1E+2", "0e0", "0.1", "0.1234567890123456789", "16777217", "3.4028236e38", "1e40", "-2.5e-50", "5e-324", "2.2250738585072014e-308", "1.7976931348623157e308",
+		"1e400", "1e999", "-1e999", "1e-999", "NaN", "nan", "NAN", "+nan", "-nan", "Inf", "inf", "INF", "+Inf", "-inf", "infinity", "Infinity", "-Infinity", "+INFINITY", "infinit", "in", "0x1p-2", "0x1.8p1", "0x10", "1_0", "1e", "e1", "", "1f", "1d", "1,5", "١", "９", "9007199254740993"}, sharpFloats()...)
 }
